@@ -226,6 +226,64 @@ def oracle_perfect(rng):
     return out, {'nx': nx, 'nu': nu, 'ep': ep, 'X': X.tolist(), 'A': A.tolist(), 'B': B.tolist()}
 
 
+def oracle_scorer(rng):
+    """make_scorer(...) (and score) agree with score_trajectory applied to predict_trajectory: float data, pipelines WITH
+    delays (min_samples_ > 1), every option.  Two references are accepted for the multistep scorer - the aligned one
+    (prediction of time k vs truth at time k) and the one the current code implements (known finding F-score: the
+    trajectory predicted from the data without each episode's last sample vs the data shifted by one) - a value equal to
+    neither is a new violation of the clause."""
+    nx, nu = rng.randint(1, 3), rng.randint(0, 2)
+    ep = rng.random() < 0.7
+    X, A, B = linear_data(rng, nx, nu, ep, rng.randint(1, 3) if ep else 1, m_extra=7)
+    dx, du = rng.choice([(0, 0), (1, 1), (2, 2), (1, 0), (2, 1), (0, 1)])
+    if nu == 0:
+        du = 0
+    lfs = []
+    kind = rng.choice(['delay', 'delay', 'poly+delay', 'delay+poly', 'none'])
+    if 'delay' in kind and (dx or du):
+        lfs.append(('d', pykoop.DelayLiftingFn(n_delays_state=dx, n_delays_input=du)))
+    if 'poly' in kind:
+        pl = ('p', pykoop.PolynomialLiftingFn(order=2))
+        lfs = ([pl] + lfs) if kind.startswith('poly') else (lfs + [pl])
+    kp = pykoop.KoopmanPipeline(lifting_functions=lfs or None, regressor=pykoop.Edmd(alpha=0.5))
+    kp.fit(X, n_inputs=nu, episode_feature=ep)
+    m = kp.min_samples_
+    blocks = st.ref_split(X, ep)
+    if min(b.shape[0] for _, b in blocks) < m + 2:
+        return None
+    n_steps = rng.choice([None, 1, 2, 3, 5, 50])
+    gamma = rng.choice([1.0, 0.5, 0.25])
+    multistep = rng.random() < 0.75
+    relift = rng.random() < 0.6
+    metric = rng.choice(['neg_mean_squared_error', 'neg_mean_absolute_error'])
+    sc = pykoop.KoopmanPipeline.make_scorer(n_steps=n_steps, discount_factor=gamma, regression_metric=metric,
+                                            multistep=multistep, relift_state=relift)
+    got = outcome(lambda: sc(kp, X))
+    case = {'nx': nx, 'nu': nu, 'ep': ep, 'X': X.tolist(), 'delays': [dx, du], 'kind': kind, 'n_steps': n_steps,
+            'gamma': gamma, 'multistep': multistep, 'relift': relift, 'metric': metric, 'min_samples': m}
+    Xs = np.asarray(X, dtype=float)
+    nst = Xs.shape[1] - nu     # episode column (if any) + states
+    unsh = st.ref_combine([(l, b[:-1]) for l, b in blocks], ep)
+    shif = st.ref_combine([(l, b[1:, :b.shape[1] - nu]) for l, b in blocks], ep)
+    refs = []
+    try:
+        if multistep:
+            kw = dict(n_steps=n_steps, discount_factor=gamma, regression_metric=metric, min_samples=m, episode_feature=ep)
+            refs.append(pykoop.score_trajectory(kp.predict_trajectory(Xs, relift_state=relift), Xs[:, :nst], **kw))
+            refs.append(pykoop.score_trajectory(kp.predict_trajectory(unsh, relift_state=relift), shif, **kw))
+        else:
+            refs.append(pykoop.score_trajectory(kp.predict(unsh), shif, regression_metric=metric, min_samples=m,
+                                                episode_feature=ep))
+    except Exception as ex:
+        return None
+    out = []
+    if got[0] != 'val' or not any(abs(got[1] - r) <= 1e-9 * max(1.0, abs(r)) for r in refs):
+        out.append((f'make_scorer(n_steps={n_steps}, discount_factor={gamma}, multistep={multistep}, relift_state={relift}) '
+                    f'returned {got} on a pipeline with min_samples_={m}; score_trajectory applied to predict_trajectory '
+                    f'gives {refs}', {'call': 'make_scorer_vs_score_trajectory', 'multistep': multistep}))
+    return out, case
+
+
 def oracle_formula(c):
     """score equals the negated weighted error with weight discount**k on the k-th predicted step of each
     episode, zero beyond n_steps, IC excluded; finite error_score is a floor; non-finite -> error_score"""
@@ -264,6 +322,23 @@ def oracle_formula(c):
     if o[0] != 'val' or abs(o[1] - want) > 1e-10 * max(1.0, abs(want)):
         return f'score {o} != weighted error formula {want!r}'
     return None
+
+
+def population_search(ctx):
+    """failing-input search over a fresh population (also used when an exception raised inside the implementation
+    ended the correspondence run early)"""
+    for i in range(300):
+        c = gen_score_case(ctx.rng)
+        why = oracle_formula(c)
+        if why:
+            ctx.fail(why, {k: str(v) for k, v in c.items()}, {'call': 'score_trajectory'})
+            return
+    for i in range(400):
+        res = oracle_scorer(ctx.rng)
+        if res and res[0]:
+            for why, tags in res[0]:
+                ctx.fail(why, res[1], tags)
+            return
 
 
 def run(ctx):
@@ -345,14 +420,17 @@ def run(ctx):
             fails, case = res
             for why, tags in fails:
                 ctx.fail(why, case, tags)
+    for i in range(ctx.n(30, 400)):
+        res = oracle_scorer(ctx.rng)
+        ctx.count('scorer-oracle:' + ('skipped' if res is None else 'run'))
+        if res:
+            fails, case = res
+            ctx.count(f"scorer-oracle:min_samples={case['min_samples']}")
+            for why, tags in fails:
+                ctx.fail(why, case, tags)
 
     def search(ctx):
-        for i in range(300):
-            c = gen_score_case(ctx.rng)
-            why = oracle_formula(c)
-            if why:
-                ctx.fail(why, {k: str(v) for k, v in c.items()}, {'call': 'score_trajectory'})
-                return
+        population_search(ctx)
     return ctx.finish('proof', search)
 
 
